@@ -383,12 +383,12 @@ func (l *NativeArrayList[T]) ConcatVal(other Value) (Value, Value) {
 			newList = append(newList, *o...)
 			return Ref(&newList), Undefined
 		case ArrayTuple:
-			newList := make(ArrayListOfValue, len(*l), len(*l)+o.Length())
+			newList := make(ArrayListOfValue, len(*l)+o.Length())
 			for i, element := range *l {
 				newList[i] = element.ToValue()
 			}
 			for i, element := range o.Elements() {
-				newList[i+o.Length()] = element
+				newList[len(*l)+i] = element
 			}
 			return Ref(&newList), Undefined
 		}
@@ -430,6 +430,10 @@ func (l *NativeArrayList[T]) Repeat(other Value) (*NativeArrayList[T], Value) {
 				"list repeat count is too large %s",
 				o.Inspect(),
 			))
+		}
+		if newLen == 0 {
+			// nothing to copy, do not spin `o` times
+			return &NativeArrayList[T]{}, Undefined
 		}
 		newList := make(NativeArrayList[T], 0, newLen)
 		for range int(o) {
@@ -573,7 +577,7 @@ func (l *NativeArrayListIterator[T]) NextValue() (t Value, err Value) {
 
 func (l *NativeArrayListIterator[T]) Elements() iter.Seq[Value] {
 	return func(yield func(Value) bool) {
-		for ; l.Index >= l.ArrayList.Length(); l.Index++ {
+		for ; l.Index < l.ArrayList.Length(); l.Index++ {
 			if !yield((*l.ArrayList)[l.Index].ToValue()) {
 				return
 			}
